@@ -298,6 +298,11 @@ impl G {
                     format!("fabrecover {}", self.r.pick(&[1u64, 1, 2, 3, 200, 255]))
                 } else if c11 && self.r.chance(1, 2) {
                     "freset".into()
+                } else if c07 && v.fault_in == 0 && self.r.chance(1, 2) {
+                    // (C07: the factory reset of the RUNNING node - the sessions and resumption records of
+                    // the fabrics must go with them; one that is hit by a store fault is the open finding
+                    // C07-faulty-factory-reset-leaves-keys: corpus only)
+                    "freset".into()
                 } else {
                     format!("tick {}", self.r.range(1, 70))
                 }
